@@ -893,6 +893,75 @@ example : (mkResult ["b", "a"] [1, 2]).valueOf "a" = some 2 ∧ (mkResult ["a", 
 /-- the FMF hypothesis `A i j * w j ≠ 0` holds on positive data and weights -/
 example (A : Mat m n ℝ) (w : Vec n ℝ) (hA : ∀ i j, 0 < A i j) (hw : ∀ j, 0 < w j) : ∀ i j, A i j * w j ≠ 0 :=
   fun i j => (mul_pos (hA i j) (hw j)).ne'
+
+/-! transformers: the same 3 × 2 problem as decision data -/
+open Skc.Scalers in
+def d0 : Data 3 2 ℚ := ⟨A0, o0, w0⟩
+
+open Skc.Scalers in
+/-- written down in the other order it is a different array: position (0, 0) now holds alternative 1 on
+criterion 1, weight and objective 0 are those of criterion 1 -/
+example : (d0.permute σ0 τ0).matrix 0 0 = 2 ∧ d0.matrix 0 0 = 1 ∧
+    (d0.permute σ0 τ0).weights 0 = 3/4 ∧ (d0.permute σ0 τ0).objectives 0 = .min := by
+  have hσ : σ0 0 = 1 := by decide
+  have hτ : τ0 0 = 1 := by decide
+  refine ⟨?_, ?_, ?_, ?_⟩
+  · show A0 (σ0 0) (τ0 0) = 2
+    rw [hσ, hτ]; simp [A0]
+  · simp [d0, A0]
+  · show w0 (τ0 0) = 3/4
+    rw [hτ]; simp [w0]
+  · show o0 (τ0 0) = .min
+    rw [hτ]; simp [o0]
+
+open Skc.Scalers in
+/-- SumScaler divides criterion 0 by 1 + 3 + 2: alternative 0 gets 1/6 — at position (0, 0) of the original
+problem and at position (2, 1) of the permuted one (`σ0 2 = 0`, `τ0 1 = 0`) -/
+example : (sumScaler .both d0).matrix 0 0 = 1/6 ∧ (sumScaler .both (d0.permute σ0 τ0)).matrix 2 1 = 1/6 := by
+  have h : (sumScaler .both d0).matrix 0 0 = 1/6 := by
+    show A0 0 0 / sumFin (fun k => A0 k 0) = 1/6
+    simp [sumFin, A0, List.ofFn_succ]; norm_num
+  refine ⟨h, ?_⟩
+  rw [sumScaler_permute]
+  show (sumScaler .both d0).matrix (σ0 2) (τ0 1) = 1/6
+  rw [show σ0 2 = 0 by decide, show τ0 1 = 0 by decide]; exact h
+
+open Skc.Scalers in
+/-- the inverters change the objectives (to all-`MAX`) in both presentations alike -/
+example : (negateMinimizer (d0.permute σ0 τ0)).objectives = fun _ => .max := rfl
+
+open Skc.Scalers in
+/-- every field-only transformer is available as a step; a pipeline of all of them commutes with the reordering -/
+example : runAll [pushNegStep .both, addZeroStep (1/2) .matrix, maxAbsStep .both, minMaxStep 0 1 false .matrix,
+      cenitStep, invertStep, negateStep, sumStep .weights] (d0.permute σ0 τ0) =
+    (runAll [pushNegStep .both, addZeroStep (1/2) .matrix, maxAbsStep .both, minMaxStep 0 1 false .matrix,
+      cenitStep, invertStep, negateStep, sumStep .weights] d0).permute σ0 τ0 := pipeline_permute _ σ0 τ0 d0
+
+open Skc.Scalers in
+/-- `MinMaxScaler` with the default `criteria_range = (0, 1)` is accepted, so `minMaxStep` is what the class computes -/
+example : minMaxScaler 0 1 false .both d0 = .ok ((minMaxStep 0 1 false .both).run d0) :=
+  minMaxScaler_ok (by norm_num) false .both d0
+
+open Skc.Scalers in
+/-- over `ℝ`: StandarScaler, VectorScaler and the four weighters are steps too -/
+example (d : Data 3 2 ℝ) (σ : Equiv.Perm (Fin 3)) (τ : Equiv.Perm (Fin 2)) (i : Fin 3) :
+    scoreWith (topsis .euclidean)
+        (runAll [standardStep true true .matrix, vectorStep .both, weighterStep .entropy, weighterStep .std,
+          weighterStep (.equal 1), weighterStep (.critic .spearman false), negateStep] (d.permute σ τ)) i =
+      scoreWith (topsis .euclidean)
+        (runAll [standardStep true true .matrix, vectorStep .both, weighterStep .entropy, weighterStep .std,
+          weighterStep (.equal 1), weighterStep (.critic .spearman false), negateStep] d) (σ i) :=
+  pipeline_topsis_presentation _ .euclidean σ τ d i
+
+open Skc.Scalers in
+/-- SumScaler → WSM on `d0`: alternative 0 scores 1/6·1/4 + 4/8·3/4 = 5/12, found at position 2 of the permuted problem -/
+example : wsm (sumScaler .both d0).matrix (sumScaler .both d0).weights 0 = 5/12 ∧
+    wsm (sumScaler .both (d0.permute σ0 τ0)).matrix (sumScaler .both (d0.permute σ0 τ0)).weights 2 = 5/12 := by
+  have h : wsm (sumScaler .both d0).matrix (sumScaler .both d0).weights 0 = 5/12 := by
+    show sumFin (fun j => (A0 0 j / sumFin fun k => A0 k j) * (w0 j / sumFin w0)) = 5/12
+    simp [sumFin, A0, w0, List.ofFn_succ]; norm_num
+  refine ⟨h, ?_⟩
+  rw [sumScaler_wsm_presentation, show σ0 2 = 0 by decide]; exact h
 end examples
 
 end Skc.C05
